@@ -992,6 +992,13 @@ Proof.
   unfold new_cids. rewrite !map_length. reflexivity.
 Qed.
 
+Lemma refine_extend_self h c f : wf h -> refines h (OExtendSelf c true f).
+Proof.
+  intros W. unfold refines. simpl. unfold exec_extend_self. rewrite abs_ems_nth.
+  destruct (nth_error (ems h) c) as [e|] eqn:Ee; simpl; auto.
+  apply refine_extend_locs; auto. eapply wf_em; eauto.
+Qed.
+
 (* ------------------------------------------------------------------------------------ *)
 (* the refinement theorem                                                                *)
 (* ------------------------------------------------------------------------------------ *)
@@ -1038,6 +1045,7 @@ Proof.
   - apply refine_tcsel; auto.
   - apply refine_trsel; auto.
   - apply refine_tcclone; auto.
+  - apply refine_extend_self; auto.
 Qed.
 
 (* over whole operation sequences, from the empty heap: same contents and same outcomes *)
